@@ -64,7 +64,7 @@ def op_set_format(sim: Sim, a) -> str:
     if isinstance(v, bool):
         args = "tickbox"
     elif isinstance(v, (int, float)):
-        kind = NUMBER_KINDS[k % len(NUMBER_KINDS)]
+        kind = a.get("kind") if a.get("kind") in NUMBER_KINDS else NUMBER_KINDS[k % len(NUMBER_KINDS)]
         if kind == "number":
             args, kw = "number", {"decimal_places": k % 5, "show_thousands_separator": bool(k % 2)}
         elif kind == "currency":
@@ -99,7 +99,13 @@ def op_set_format(sim: Sim, a) -> str:
     if sim.real:
         with warnings.catch_warnings():
             warnings.simplefilter("ignore")
-            table.set_cell_formatting(r, c, args, **kw)
+            try:
+                table.set_cell_formatting(r, c, args, **kw)
+            except Exception as e:  # noqa: BLE001
+                # whether a formatting call may fail is not C07's business (it speaks about what gets SAVED);
+                # the history simply continues and whatever is saved afterwards is validated as usual
+                sim.probe(f"format_call_raised_{args}_{type(e).__name__}")
+                return "raised_" + type(e).__name__
         sim.probe("format_" + args)
     return "ok"
 
@@ -138,8 +144,12 @@ def op_custom_format(sim: Sim, a) -> str:
     if sim.real:
         with warnings.catch_warnings():
             warnings.simplefilter("ignore")
-            cf = ds.doc.add_custom_format(**kw)
-            table.set_cell_formatting(r, c, "custom", format=cf if k % 2 else cf.name)
+            try:
+                cf = ds.doc.add_custom_format(**kw)
+                table.set_cell_formatting(r, c, "custom", format=cf if k % 2 else cf.name)
+            except Exception as e:  # noqa: BLE001
+                sim.probe(f"format_call_raised_custom_{type(e).__name__}")
+                return "raised_" + type(e).__name__
         m.custom_formats.append(cf.name)
         sim.probe("custom_format_" + kw["type"])
     else:
